@@ -823,7 +823,7 @@ fn exercise_base(idx: usize, base: &[String], rng: &mut Rng, thorough: bool) -> 
 
 pub fn run(seed: u64, tier: &str, ev: &mut Evidence) -> Vec<Violation> {
     let thorough = tier == "thorough";
-    let (n_bases, n_malformed) = if thorough { (700usize, 40_000usize) } else { (200, 2500) };
+    let (n_bases, n_malformed) = if thorough { (450usize, 40_000usize) } else { (200, 2500) };
     // ---- injection at every statement position -----------------------------------------------
     let mut bases: Vec<Vec<String>> = Vec::new();
     for j in 0..n_bases {
